@@ -15,6 +15,10 @@ const A = {
   s1:   { src: 'style={t("s1")}', leaves: ['s1'], kind: 'merge:style' },
   k1:   { src: 'onClick={t("k1")}', leaves: ['k1'], kind: 'merge:onClick' },
   k2:   { src: 'onClick={t("k2")}', leaves: ['k2'], kind: 'merge:onClick' },
+  s2:   { src: 'style={[t("s2")]}', leaves: ['s2'], kind: 'merge:style' },
+  // all-lower-case listener names (DOM style) are listeners too
+  l1:   { src: 'onclick={t("l1")}', leaves: ['l1'], kind: 'merge:onclick' },
+  l2:   { src: 'onclick={t("l2")}', leaves: ['l2'], kind: 'merge:onclick' },
   key:  { src: 'key={t("key")}', leaves: ['key'], kind: 'plain' },
   ref:  { src: 'ref={t("ref")}', leaves: ['ref'], kind: 'plain' },
   sp1:  { src: '{...t("sp1")}', leaves: ['sp1'], kind: 'spread' },
